@@ -375,4 +375,11 @@ def planarise (inp : Input) : Output :=
     nodes := inp.nodes ++ bst.store ++ crossNodes, segs := st.segs,
     edges := st.segs.map (fun s => (s.on.id, s.cn.id)) }
 
+/-- the route segments of an input: `buildSegments` after `buildUniqueBendPoints` (what `planarise` calls `segsA`) -/
+def segsAOf (inp : Input) : List Seg :=
+  zipEdgeSegs inp.edges (uniqueBends { nextId := firstFreeId inp.nodes } inp.edges).2
+
+/-- the segment list handed to `computeCrossings` (what `planarise` calls `segsB`) -/
+def segsBOf (inp : Input) : List Seg := (overlapFreeEdges (segsAOf inp)).map (fun e => mkSeg e.1 e.2)
+
 end AdaptaVerif.Model.Planarise
